@@ -315,3 +315,47 @@ Proof.
     - rewrite (count_eq_nodup s W Hnd). reflexivity. }
   rewrite (map_ext _ _ E2). apply lsum_indicator.
 Qed.
+
+(* ================= every identifier resolves, through the document's own namespace table, to the URI it has in the graph ================= *)
+Lemma zindex_nth z l : forall j, zindex z l = Some j -> nth j l 0%Z = z /\ j < length l.
+Proof.
+  induction l as [|x r IH]; intros j H; [discriminate|]. cbn [zindex] in H. destruct (Z.eqb_spec x z) as [->|Hne].
+  - injection H as <-. cbn. split; [reflexivity|lia].
+  - destruct (zindex z r) as [i|]; [|discriminate]. injection H as <-. destruct (IH i eq_refl) as [A B]. cbn. split; [exact A|lia].
+Qed.
+Lemma newl_contains ns k j : k < length ns -> j < length ns -> In (nth j ns []) (w_newl ns k).
+Proof.
+  intros Hk Hj. unfold w_newl. destruct (Nat.eq_dec j 0) as [->|N0]; [now left|]. destruct (Nat.eq_dec j k) as [->|Nk]; [right; now left|]. right. right.
+  apply in_map_iff. exists (j, nth j ns []). split; [reflexivity|]. apply filter_In. split; [apply (combine_seq_In ns 0 j Hj)|].
+  cbn [fst]. destruct (Nat.eqb_spec j 0); [contradiction|]. destruct (Nat.eqb_spec j k); [contradiction|]. reflexivity.
+Qed.
+Lemma remap_uri ns k j : k < length ns -> j < length ns ->
+  nth (Z.to_nat (w_remap ns k (Z.of_nat j))) (w_newl ns k) [] = nth j ns [].
+Proof.
+  intros Hk Hj. unfold w_remap. rewrite Nat2Z.id. destruct (str_index_In _ _ (newl_contains ns k j Hk Hj)) as [i Hi].
+  match goal with |- context [match ?s with Some _ => _ | None => _ end] => destruct s as [i'|] eqn:E' end.
+  - rewrite Nat2Z.id. now destruct (str_index_nth _ _ _ E') as [A _].
+  - exfalso. assert (X : @None nat = Some i) by (rewrite <- E'; exact Hi). discriminate.
+Qed.
+Lemma compact_uri (newl : list str) in_use i c : w_compact in_use i = Some c ->
+  nth (Z.to_nat c) (map (fun i0 : Z => nth (Z.to_nat i0) newl []) in_use) [] = nth (Z.to_nat i) newl [].
+Proof.
+  unfold w_compact. destruct (zindex i in_use) as [j|] eqn:E; [|discriminate]. cbn [omap]. intros H. injection H as <-. rewrite Nat2Z.id.
+  destruct (zindex_nth _ _ _ E) as [A B].
+  etransitivity; [apply (nth_indep _ _ ((fun i0 : Z => nth (Z.to_nat i0) newl []) 0%Z)); rewrite map_length; exact B|].
+  etransitivity; [apply (map_nth (fun i0 : Z => nth (Z.to_nat i0) newl []) in_use 0%Z j)|]. cbv beta. now rewrite A.
+Qed.
+(* the NodeId text written for a node of the graph: same identifier type and value, and a namespace index that names - in the table
+   [namespace 0 :: the document's NamespaceUris] - the very URI the node's namespace index names in the graph's table *)
+Theorem identifier_resolution p k refs r m : indices_ok p -> k < length (p_namespaces p) -> In r (p_nodes p) ->
+  w_lookup p k (w_in_use p k refs) (nr_nodeid r) = Some m ->
+  nid_type m = nid_type (nr_nodeid r) /\ nid_value m = nid_value (nr_nodeid r) /\
+  nth (Z.to_nat (nid_ns m)) (map (fun i : Z => nth (Z.to_nat i) (w_newl (p_namespaces p) k) []) (w_in_use p k refs)) []
+  = nth (Z.to_nat (nid_ns (nr_nodeid r))) (p_namespaces p) [].
+Proof.
+  intros Hi Hk Hr Hl. unfold w_lookup in Hl.
+  destruct (find_first_row p k (nr_nodeid r) (ex_intro _ r (conj Hr eq_refl))) as [y [Hy Hyns]]. rewrite Hy, Hyns in Hl.
+  destruct (w_compact (w_in_use p k refs) (w_remap (p_namespaces p) k (nid_ns (nr_nodeid r)))) as [c|] eqn:Ec; [|discriminate]. injection Hl as <-.
+  cbn [with_nid_ns nid_type nid_value nid_ns]. split; [reflexivity|]. split; [reflexivity|].
+  rewrite (compact_uri _ _ _ _ Ec). destruct (node_ns_nat p r Hi Hr) as [j [Hj Ej]]. rewrite Ej, Nat2Z.id. now apply remap_uri.
+Qed.
